@@ -399,4 +399,22 @@ theorem grun_bounded (g : G) (ops : List COp) (h : Good (g.sem, g.held)) (hb : B
     · intro o ho; exact hop o (by simp [ho])
     · intro o ho; rw [m1]; exact hs o (by simp [ho])
 
+/-! ### decidability (for the non-vacuity examples) -/
+
+instance (m : Int) (op : SemOp) : Decidable (OpOK m op) := by
+  cases op <;> simp only [OpOK] <;> infer_instance
+
+instance (op : COp) : Decidable op.reqNonneg := by
+  cases op <;> simp only [COp.reqNonneg] <;> infer_instance
+
+instance (m : Int) (op : COp) : Decidable (op.sizeOK m) := by
+  cases op <;> simp only [COp.sizeOK] <;> infer_instance
+
+instance (s : Sem) : Decidable (NoLost s) := by
+  unfold NoLost
+  cases s.waiters <;> simp only <;> infer_instance
+
+instance (c : LocalCfg) : Decidable (Sane c) := by
+  unfold Sane; infer_instance
+
 end Martian.Semaphore
